@@ -92,7 +92,13 @@ def op_s(draw):
 
 @st.composite
 def seg_history(draw):
-    b = draw(gen.bezier_spec(scale_strategy=st.sampled_from([1.0, 1.0, 1e2])))
+    b = draw(gen.bezier_spec(scale_strategy=st.sampled_from([1.0, 1.0, 1e2]),
+                             classes=draw(st.sampled_from([None, None, ['nearlinear'], ['generic']]))))
+    if draw(st.integers(0, 3)) == 0:
+        # the same length asked first loosely, then tightly (and the other way round)
+        e1, d1 = draw(st.sampled_from([(1e-1, 0), (1e-3, 2), (1e-12, 5)]))
+        e2, d2 = draw(st.sampled_from([(1e-12, 5), (1e-10, 6), (1e-1, 0)]))
+        return {'kind': 'seg', 'spec': b['spec'], 'ops': [['length_tol', e1, d1], ['length_tol', e2, d2], ['length'], ['reversed_length']]}
     ops = draw(st.lists(st.one_of(
         st.tuples(st.just('set'), st.integers(0, 3), pt_s).map(list),
         st.just(['length']),
@@ -100,6 +106,27 @@ def seg_history(draw):
         st.tuples(st.just('length_t'), gen.floats_in(0.0, 0.5), gen.floats_in(0.5, 1.0)).map(list),
         st.just(['reversed_length']), st.just(['point']), st.just(['bbox']), st.just(['poly'])), min_size=2, max_size=10))
     return {'kind': 'seg', 'spec': b['spec'], 'ops': ops}
+
+
+@st.composite
+def seg_tolerance_history(draw):
+    """a nearly (but visibly not) uniform-speed quadratic/cubic whose length is asked loosely, then tightly: the case
+    where tolerance arguments change the value in the pure-Python fallback"""
+    deg = draw(st.sampled_from([2, 2, 3]))
+    sc = draw(st.sampled_from([1.0, 1e2]))
+    a, b = draw(gen.point(sc)), draw(gen.point(sc))
+    if a == b:
+        b = [b[0] + sc, b[1]]
+    pts = [[a[0] + (b[0] - a[0]) * i / float(deg), a[1] + (b[1] - a[1]) * i / float(deg)] for i in range(deg + 1)]
+    k = draw(st.sampled_from([3e-2, 1e-2, 3e-3, 1e-3, 3e-4]))
+    q = draw(gen.point(sc))
+    pts[1] = [pts[1][0] + k * (q[0] + sc), pts[1][1] + k * (q[1] - sc)]
+    e1, d1 = draw(st.sampled_from([(1e-1, 0), (1e-2, 1), (1e-3, 2)]))
+    e2, d2 = draw(st.sampled_from([(1e-12, 5), (1e-10, 5), (1e-12, 7)]))
+    ops = [['length_tol', e1, d1], ['length_tol', e2, d2], ['length'], ['reversed_length']]
+    if draw(st.booleans()):
+        ops = [['length_tol', e2, d2], ['length_tol', e1, d1], ['length']]
+    return {'kind': 'seg', 'spec': ['LQC'[deg - 1]] + pts, 'ops': ops}
 
 
 @st.composite
@@ -115,7 +142,7 @@ def strategy(tier, config):
         init = draw(st.lists(seg_s, min_size=0, max_size=3))
         ops = draw(st.lists(op_s(), min_size=2, max_size=40 if tier == 'thorough' else 25))
         return {'kind': 'hist', 'init': init, 'ops': ops}
-    return st.one_of(hist(), hist(), hist(), seg_history(), eqhash_case())
+    return st.one_of(hist(), hist(), hist(), seg_history(), seg_tolerance_history(), eqhash_case())
 
 
 # ---------------------------------------------------------------------------
@@ -176,7 +203,10 @@ def apply_op(ctx, path, model, op, build):
     n = len(model)
 
     def idx(i):
-        return (i % n) if n else 0
+        # negative values address from the end (as Python indices do), so that both index forms are exercised
+        if not n:
+            return 0
+        return (i % n) if i >= 0 else -((-i - 1) % n) - 1
     if k == 'set':
         if not n:
             return None
@@ -184,13 +214,13 @@ def apply_op(ctx, path, model, op, build):
         path[idx(op[1])] = s
         model[idx(op[1])] = s
     elif k == 'setslice':
-        i, j = sorted([idx(op[1]), idx(op[2])]) if n else (0, 0)
+        i, j = sorted([idx(op[1]) % n, idx(op[2]) % n]) if n else (0, 0)
         segs = [build(s) for s in op[3]]
         path[i:j] = segs
         model[i:j] = segs
     elif k == 'insert':
         s = build(op[2])
-        i = idx(op[1]) if n else 0
+        i = op[1]      # list.insert accepts any integer
         path.insert(i, s)
         model.insert(i, s)
     elif k == 'append':
@@ -211,7 +241,7 @@ def apply_op(ctx, path, model, op, build):
         del path[idx(op[1])]
         del model[idx(op[1])]
     elif k == 'delslice':
-        i, j = sorted([idx(op[1]), idx(op[2])]) if n else (0, 0)
+        i, j = sorted([idx(op[1]) % n, idx(op[2]) % n]) if n else (0, 0)
         del path[i:j]
         del model[i:j]
     elif k == 'pop':
@@ -272,7 +302,7 @@ def run_query(ctx, path, op):
         if a[0] != b[0] or (a[0] == 'exc' and a[1] != b[1]):
             ctx.fail('stale/length_tol/outcome', 'length(error=%r, min_depth=%r): %r on the mutated path, %r on a fresh one' % (err, md, a, b))
         if a[0] == 'ok':
-            truth = Path(*[_clone(s) for s in path]).length(error=1e-13, min_depth=12)
+            truth = Path(*[_clone(s) for s in path]).length(error=1e-13, min_depth=9)
             ctx.check(accuracy_ok(float(a[1]), float(b[1]), float(truth), float(truth)), 'stale/length_tol/less_accurate_than_fresh',
                       'length(error=%r, min_depth=%r)=%r on the mutated path; a fresh path gives %r, the accurate value is %r' % (err, md, a[1], b[1], truth))
         return
@@ -385,7 +415,7 @@ def check_seg_history(case, ctx):
             a = outcome(lambda s: s.length(error=op[1], min_depth=op[2]), seg)
             b = outcome(lambda s: s.length(error=op[1], min_depth=op[2]), fresh)
             if a[0] == 'ok' and b[0] == 'ok':
-                truth = gen.build_seg([spec[0]] + cur).length(error=1e-13, min_depth=12)
+                truth = gen.build_seg([spec[0]] + cur).length(error=1e-13, min_depth=9)
                 ctx.check(accuracy_ok(float(a[1]), float(b[1]), float(truth), float(truth)), 'segment/length_tol/less_accurate_than_fresh/' + spec[0],
                           '%s.length(error=%r, min_depth=%r)=%r after the history; a fresh segment gives %r, the accurate value is %r'
                           % (spec[0], op[1], op[2], a[1], b[1], truth))
@@ -393,7 +423,7 @@ def check_seg_history(case, ctx):
         if k in ('length', 'length_t', 'reversed_length') and a[0] == 'ok' and b[0] == 'ok':
             # a value cached with tighter tolerances may legitimately be reused
             truth = gen.build_seg([spec[0]] + cur)
-            tv = truth.length(error=1e-13, min_depth=12) if k != 'length_t' else truth.length(op[1], op[2], error=1e-13, min_depth=12)
+            tv = truth.length(error=1e-13, min_depth=9) if k != 'length_t' else truth.length(op[1], op[2], error=1e-13, min_depth=9)
             ctx.check(accuracy_ok(float(a[1]), float(b[1]), float(tv), float(tv)), 'segment/stale/%s/%s' % (k, spec[0]),
                       '%s %s gives %r after the history but a fresh segment gives %r (accurate %r)' % (spec[0], k, a[1], b[1], tv))
             continue
